@@ -133,8 +133,11 @@ def build_case(rng, root):
             if made and rng.random() < 0.3:
                 reuse = rng.choice(made)     # the same file included again (possibly another tab)
                 feats.add('same_target_twice')
+            fragment = None
             if reuse:
                 kind, name, tabs, fin, code = reuse
+                if code.startswith(b'function frag_') or code.startswith(b"it's only text"):
+                    fragment = 'function_opened' if code.startswith(b'function') else 'long_string_text'
             else:
                 kind = rng.choice(('lua', 'lua', 'p8', 'p8', 'png'))
                 sub = rng.choice(('', '', 'lib/', 'lib/deep/'))
@@ -144,7 +147,16 @@ def build_case(rng, root):
                 tabs = rng.choice((0, 0, 1, 3, 11, 16)) if kind != 'lua' else 0
                 fin = rng.random() < 0.6
                 code = make_code(rng, tabs, fin, nested=rng.random() < 0.3)
-                if kind == 'lua' and rng.random() < 0.35:
+                fragment = None
+                if kind == 'lua' and rng.random() < 0.18:
+                    # #include is a splice of text: a .lua file need not be a program by itself
+                    fragment = rng.choice(('function_opened', 'long_string_text'))
+                    if fragment == 'function_opened':
+                        code = b'function frag_%d(a)\n local it=a\n' % inc_i + (b' return it' if not fin else b' it+=1\n')
+                    else:
+                        code = b"it's only text: \"unbalanced\n-- not a comment (\n" + (b'last line' if not fin else b'end of text\n')
+                    feats.add('lua_target_that_is_a_fragment:' + fragment)
+                elif kind == 'lua' and rng.random() < 0.35:
                     # a .lua file is taken as it is, line by line: bytes above 127 (P8SCII glyphs, or the UTF-8 text of an editor) included
                     code = rng.choice((b'-- cr\xc3\xa9dits \xe2\x9c\x93\n', b'-- \xff\x80\x8e raw glyphs\n', b's="\x97\xc3"\n')) + code
                     feats.add('lua_target_with_high_bytes')
@@ -161,7 +173,16 @@ def build_case(rng, root):
             ext = {'lua': '.lua', 'p8': '.p8', 'png': '.p8.png'}[kind]
             path = os.path.join(cartdir, name + ext)
             os.makedirs(os.path.dirname(path), exist_ok=True)
-            is_missing = rng.random() < 0.06 and not reuse
+            is_missing = rng.random() < 0.06 and not reuse and not fragment
+            if is_missing and kind != 'lua' and rng.random() < 0.6:
+                # the cart of that name in the OTHER cart format exists: it is another file, the named one is still missing
+                other = os.path.join(cartdir, name + ('.p8.png' if kind == 'p8' else '.p8'))
+                os.makedirs(os.path.dirname(other), exist_ok=True)
+                if kind == 'p8':
+                    put(other, rc.write_p8png(carts.random_regions(rng, 'zero')[0], rc.raw_code_area(b'sibling_of_other_format=1\n'), 8))
+                else:
+                    put(other, rc.write_p8(carts.random_regions(rng, 'zero')[0], b'sibling_of_other_format=1\n', version=8))
+                feats.add('missing_target_with_sibling_of_other_format')
             regions, _ = carts.random_regions(rng, 'zero')
             stored = code
             if reuse:
@@ -204,16 +225,31 @@ def build_case(rng, root):
             lead = rng.choice((b'', b'', b' ', b'\t', b'  \t'))
             gap = rng.choice((b' ', b' ', b'  ', b'\t'))
             trail = rng.choice((b'', b'', b' ', b'  '))
-            directive = lead + b'#include' + gap + (name + ext).encode() + ((':%d' % sel).encode() if sel is not None else b'') + trail + b'\n'
+            spelled = name + ext
+            r_sp = rng.random()
+            if r_sp < 0.08:
+                spelled = './' + spelled
+            elif r_sp < 0.16 and name.startswith('lib/'):
+                spelled = 'lib/./' + spelled[4:]
+            elif r_sp < 0.16 and '/' not in name:
+                os.makedirs(os.path.join(cartdir, 'lib'), exist_ok=True)
+                spelled = 'lib/../' + spelled
+            elif r_sp < 0.2 and name.startswith('lib/deep/'):
+                spelled = 'lib/deep/../deep/' + spelled[9:]
+            if spelled != name + ext:
+                # (other spellings of a name inside the cart's directory)
+                feats.add('name_not_in_normal_form')
+            directive = lead + b'#include' + gap + spelled.encode() + ((':%d' % sel).encode() if sel is not None else b'') + trail + b'\n'
             if lead or trail or gap != b' ':
                 feats.add('directive_whitespace_variant')
-            in_comment = rng.random() < 0.12
+            in_comment = rng.random() < 0.12 or fragment == 'long_string_text'
+            opener = b'--[[ disabled for now\n' if fragment != 'long_string_text' else b'txt_%d=[[\n' % inc_i
             if in_comment:
-                # the directive is recognised line-wise, also between the lines of a block comment
-                cart_lines.append(b'--[[ disabled for now\n')
+                # the directive is recognised line-wise, also between the lines of a block comment (or of a long string)
+                cart_lines.append(opener)
                 for alt in expected:
-                    alt.append(b'--[[ disabled for now\n')
-                feats.add('include_inside_block_comment')
+                    alt.append(opener)
+                feats.add('include_inside_block_comment' if fragment != 'long_string_text' else 'include_inside_long_string')
             cart_lines.append(directive)
             tl = lines_of(stored)
             if in_comment:
@@ -240,6 +276,11 @@ def build_case(rng, root):
                 alt.extend(closing)
             if in_comment:
                 cart_lines.append(b']]\n')
+            if fragment == 'function_opened' and not is_missing:
+                # the cart closes what the included text opened
+                cart_lines.append(b'end\n')
+                for alt in expected:
+                    alt.append(b'end\n')
             feats.add('target_' + kind)
             if sub:
                 feats.add('target_in_subdir')
@@ -374,7 +415,8 @@ def gates(m, tier):
               'tab_selector_beyond', 'include_first_line', 'include_last_line', 'adjacent_includes', 'several_includes', 'nested_include_literal',
               'directive_whitespace_variant', 'missing_target', 'png_raw', 'png_compressed', 'includes_0', 'same_target_twice', 'cart_inside_carts_folder', 'name_with_embedded_extension', 'include_inside_block_comment',
               'cart_opened_through_symlinked_directory', 'lua_target_with_high_bytes', 'tab_selector_two_digits', 'cart_opened_as_bare_name_in_cwd',
-              'cart_opened_as_dot_slash_in_cwd', 'cart_opened_as_relative_from_parent', 'line_mentioning_include', 'mentioned_file_exists', 'blank_own_lines', 'selector_after_lua_name', 'included_p8_no_lua_section', 'included_p8_empty_lua_section', 'included_p8_in_variant_shape'):
+              'cart_opened_as_dot_slash_in_cwd', 'cart_opened_as_relative_from_parent', 'line_mentioning_include', 'mentioned_file_exists', 'blank_own_lines', 'selector_after_lua_name', 'included_p8_no_lua_section', 'included_p8_empty_lua_section', 'included_p8_in_variant_shape', 'missing_target_with_sibling_of_other_format',
+              'name_not_in_normal_form', 'lua_target_that_is_a_fragment:function_opened', 'lua_target_that_is_a_fragment:long_string_text'):
         if f.get(k, 0) < 5:
             missed.append('%s seen %d times' % (k, f.get(k, 0)))
     if mon.get('splices_compared', 0) < 200:
